@@ -685,17 +685,28 @@ async def load_scripts(
             return ctx2imports[ctx_name]
 
         ctx2imports = {}
-        for global_ctx_name, global_ctx in ctx_all.items():
-            if global_ctx_name not in ctx2imports:
-                visited = set()
-                import_recurse(global_ctx_name, visited, ctx2imports)
-            for mod_name in ctx2imports.get(global_ctx_name, set()):
-                parts = mod_name.split(".")
-                root = f"{parts[0]}.{parts[1]}"
-                if root in will_reload:
-                    ctx_delete.add(global_ctx_name)
-                    if global_ctx_name in ctx2files:
-                        ctx2files[global_ctx_name].force = True
+        #
+        # a module with a file that imports a module being reloaded is reloaded as a whole (see
+        # below), so whatever imports any other file of it has to follow: repeat until no more
+        # modules are added
+        #
+        num_will_reload = 0
+        while num_will_reload != len(will_reload):
+            num_will_reload = len(will_reload)
+            for global_ctx_name, global_ctx in ctx_all.items():
+                if global_ctx_name not in ctx2imports:
+                    visited = set()
+                    import_recurse(global_ctx_name, visited, ctx2imports)
+                for mod_name in ctx2imports.get(global_ctx_name, set()):
+                    parts = mod_name.split(".")
+                    root = f"{parts[0]}.{parts[1]}"
+                    if root in will_reload:
+                        ctx_delete.add(global_ctx_name)
+                        if global_ctx_name in ctx2files:
+                            ctx2files[global_ctx_name].force = True
+                        if global_ctx_name.startswith("modules."):
+                            own = global_ctx_name.split(".")
+                            will_reload.add(f"{own[0]}.{own[1]}")
 
     #
     # if any file in an app or module has changed, then reload just the top-level
